@@ -49,17 +49,21 @@ type Op struct {
 }
 
 type Plan struct {
-	Ops      []Op   `json:"ops"`
-	CutSeed  uint64 `json:"cut_seed"`
-	MaxCuts  int    `json:"max_cuts"`  // 0 = every cut of every freeze window
-	Draws    int    `json:"draws"`     // power-loss draws per cut
-	OnlyCut  uint64 `json:"only_cut"`  // >0: minimised replay evaluates the cut after this sequence number ...
-	OnlyDraw int    `json:"only_draw"` // ... and this draw (0 = process crash, k = k-th power-loss draw)
-	Expect   string `json:"expect"`    // oracle class found at OnlyCut (replay looks for this class first)
+	Ops        []Op   `json:"ops"`
+	BatchLimit uint64 `json:"batch_limit"` // chain freezer blocks per cycle (0 = the shipped 30000); small values give capped batches and several consecutive cycles per Freeze()
+	CutSeed    uint64 `json:"cut_seed"`
+	MaxCuts    int    `json:"max_cuts"`  // 0 = every cut of every freeze window
+	Draws      int    `json:"draws"`     // power-loss draws per cut
+	OnlyCut    uint64 `json:"only_cut"`  // >0: minimised replay evaluates the cut after this sequence number ...
+	OnlyDraw   int    `json:"only_draw"` // ... and this draw (0 = process crash, k = k-th power-loss draw)
+	Expect     string `json:"expect"`    // oracle class found at OnlyCut (replay looks for this class first)
 }
 
 func gen(r *simcore.Rand, tier string) any {
 	p := &Plan{CutSeed: r.Uint64(), Draws: 2, MaxCuts: 36}
+	if !r.Bool(0.4) {
+		p.BatchLimit = uint64(r.Range(1, 8))
+	}
 	rounds := r.Range(1, 3)
 	if tier == "thorough" {
 		rounds = r.Range(1, 5)
@@ -115,6 +119,9 @@ func shrink(pl any) []any {
 	for _, ops := range simcore.ShrinkSlice(p.Ops) {
 		ops := ops
 		mk(func(q *Plan) { q.Ops = ops; q.OnlyCut, q.OnlyDraw = 0, 0 })
+	}
+	if p.BatchLimit != 0 {
+		mk(func(q *Plan) { q.BatchLimit = 0; q.OnlyCut, q.OnlyDraw, q.Expect = 0, 0, "" })
 	}
 	for i, op := range p.Ops {
 		i, op := i, op
@@ -564,6 +571,13 @@ func (w *world) closeWindow(s *snap) {
 
 func runOnce(t *testing.T, p *Plan, want string) *simcore.Result {
 	res := simcore.NewResult()
+	// process-global knob of the tree under test (a constant in the shipped tree, made a
+	// variable by the build overlay): set for this run including its reboots, then restored
+	limit := p.BatchLimit
+	if limit == 0 {
+		limit = shippedBatchLimit
+	}
+	defer rawdb.VerifSetFreezerBatchLimit(rawdb.VerifSetFreezerBatchLimit(limit))
 	root, err := os.MkdirTemp(scratchDir(), "mig-")
 	if err != nil {
 		simcore.Harnessf("mkdtemp: %v", err)
@@ -726,6 +740,9 @@ func runOnce(t *testing.T, p *Plan, want string) *simcore.Result {
 			}
 			before := c.frozen
 			c.applyFreeze()
+			if c.frozen-before > limit {
+				res.Probe("freeze-in-several-capped-batches")
+			}
 			if c.frozen > before {
 				res.Probe("freeze-advanced")
 			} else {
@@ -870,6 +887,13 @@ func runOnce(t *testing.T, p *Plan, want string) *simcore.Result {
 	res.NonTrivial = res.Reboots > 2 && res.Probes["freeze-advanced"] > 0
 	return res
 }
+
+// shippedBatchLimit is read once, before any run changes the knob.
+var shippedBatchLimit = func() uint64 {
+	old := rawdb.VerifSetFreezerBatchLimit(1)
+	rawdb.VerifSetFreezerBatchLimit(old)
+	return old
+}()
 
 type cutRef struct {
 	seq uint64
@@ -1373,7 +1397,7 @@ func Checks() map[string]*simcore.Check {
 	return map[string]*simcore.Check{
 		"C25": {
 			ID: "C25", Engine: "migsim", Level: "fault_enumeration",
-			Rule: "plan = a history of canonical extensions, side branches (fork point and length drawn; parents above the frozen segment; blocks carry 0-3 indexed transactions, side blocks re-include transactions of the canonical block of the same height and of other heights, canonical blocks re-include fork transactions), reorgs onto side branches above the finalized height, finalized-marker moves, clean reopen and 1-6 blocking Freeze() rounds, written with the real rawdb.Write* accessors into rawdb.Open(SimKV, Ancient dir) - the real freezerdb, chainFreezer.freeze loop and file freezer (os->simos rewrite). Every KV mutation unit and every freezer file event carries one shared sequence number; every sequence number inside a freeze (or reopen) window is a cut (quick: seeded sample of 36 per run); each cut is materialised as a process-crash state and 2-3 power-loss states (KV: drawn suffix of unsynced units lost; files: per-file prefix of unsynced writes, torn/zero-filled last write), the real stack is reopened on it with the background freeze loop parked, all canonical accessors are compared with the reference chain, then Freeze() is run and the completed migration is judged. evaluations = histories; reboots = crash states rebooted. Non-trivial = history whose freezer advanced at least once and that rebooted >2 crash states; distinct = distinct (blocks, frozen, finalized, freeze windows, removed side blocks) fingerprints.",
+			Rule: "plan = a history of canonical extensions, side branches (fork point and length drawn; parents above the frozen segment; blocks carry 0-3 indexed transactions, side blocks re-include transactions of the canonical block of the same height and of other heights, canonical blocks re-include fork transactions), reorgs onto side branches above the finalized height, finalized-marker moves, clean reopen and 1-6 blocking Freeze() rounds, with the chain freezer batch limit drawn per run (shipped 30000 in 40% of runs, otherwise 1-8 blocks per cycle so that one Freeze() runs several capped cycles), written with the real rawdb.Write* accessors into rawdb.Open(SimKV, Ancient dir) - the real freezerdb, chainFreezer.freeze loop and file freezer (os->simos rewrite). Every KV mutation unit and every freezer file event carries one shared sequence number; every sequence number inside a freeze (or reopen) window is a cut (quick: seeded sample of 36 per run); each cut is materialised as a process-crash state and 2-3 power-loss states (KV: drawn suffix of unsynced units lost; files: per-file prefix of unsynced writes, torn/zero-filled last write), the real stack is reopened on it with the background freeze loop parked, all canonical accessors are compared with the reference chain, then Freeze() is run and the completed migration is judged. evaluations = histories; reboots = crash states rebooted. Non-trivial = history whose freezer advanced at least once and that rebooted >2 crash states; distinct = distinct (blocks, frozen, finalized, freeze windows, removed side blocks) fingerprints.",
 			Assumptions: []string{
 				"a KV write batch is atomic and units become durable in order (prefix property); the harness issues SyncKeyValue after writing chain data, before each freeze (chain data the freezer reads is durable, as after geth's own block-write path)",
 				"directory-entry operations are durable immediately; file data is durable at fsync of that file (every Sync call of the tree under test is seen)",
@@ -1386,7 +1410,7 @@ func Checks() map[string]*simcore.Check {
 			Perturbed: []string{"order in which the freezer walks its table map (Go map order) decides how file events of different tables interleave; not seedable, so the set of events before a given cut can differ between executions of one plan (replay falls back to all cuts)"},
 			Runs:      map[string]int{"quick": 240, "thorough": 12000},
 			Gen:       gen, Decode: decode, Run: run, Shrink: shrink,
-			ProbeNames: []string{"freeze-advanced", "freeze-noop", "reorg", "fork-from-canonical", "crash-before-copy-visible", "crash-after-copy",
+			ProbeNames: []string{"freeze-advanced", "freeze-noop", "reorg", "fork-from-canonical", "crash-before-copy-visible", "crash-partial-copy", "crash-after-copy", "freeze-in-several-capped-batches",
 				"side-chain-removal-expected", "dangling-descendants-expected", "side-block-shares-tx-with-canonical-same-height", "side-block-shares-canonical-tx", "canonical-block-reincludes-fork-tx", "side-above-boundary-kept", "canonical-kv-copy-left-after-crash"},
 		},
 	}
